@@ -91,10 +91,12 @@ class Collector:
         for b, n in other.failure_counts.items():
             self.failure_counts[b] = self.failure_counts.get(b, 0) + n
         for k, v in other.extra.items():
-            if isinstance(v, (int, float)) and isinstance(self.extra.get(k), (int, float)):
+            if isinstance(v, bool):
+                self.extra[k] = bool(self.extra.get(k, True)) and v
+            elif isinstance(v, (int, float)) and isinstance(self.extra.get(k), (int, float)):
                 self.extra[k] += v
-            elif isinstance(v, bool) and k in self.extra:
-                self.extra[k] = self.extra[k] and v
+            elif isinstance(v, dict) and isinstance(self.extra.get(k), dict):
+                self.extra[k].update(v)
             else:
                 self.extra.setdefault(k, v)
 
